@@ -13,6 +13,7 @@
     inc q geo geo n {xname nv {rat}* por}* dict dict
     gen q geo geo ng {xname xblock xtype ltab gx rate}* dictQ(sgridVol) n{xname rat}(tgrid) n{0|1}(incols)
         n{x}(top) n{x}(bottom) dict dict rename preserve
+    genhyp geo ng {gen}* dictQ dictQ n{0|1} n{x} n{x} dict dict   (hypotheses of generator_transfer_identity)
     rock dict(sgridRock) dict(mapping) n{x}(tblocks)
     pb dict(mapping) n{x}(tblocks) (xname | -)
     incd dict(mapping) n{x}(tblocks) n{xname}
@@ -220,6 +221,17 @@ def request : P String := do
     let pr ← pNat
     pure (showExc (shList shGenOut)
       (transferGenerators (q t) gens s t sv tg (inc.map (· != 0)) top bot m cm (rn != 0) (pr != 0)))
+  | "genhyp" => do
+    let g ← pGeo
+    let gens ← pList pGen
+    let sv ← pDictQ
+    let tg ← pDictQ
+    let inc ← pList pNat
+    let top ← pList pStr
+    let bot ← pList pStr
+    let m ← pDict
+    let cm ← pDict
+    pure (s!"{shB (genIdentitySetting g tg (inc.map (· != 0)) m cm)} {(gens.filter (genPlaced g sv tg top bot)).length} {gens.length}")
   | "rock" => do
     let sr ← pDict
     let m ← pDict
